@@ -447,15 +447,27 @@ pub fn coerced(env: &SEnv, s: &AV, r: &AV, t: &SType, unordered: bool) -> Result
             if ys.len() > xs.len() {
                 return bad("more elements than were sent");
             }
-            let mut used = vec![false; xs.len()];
-            'outer: for y in ys {
-                for (i, x) in xs.iter().enumerate() {
-                    if !used[i] && coerced(env, x, y, inner, unordered).is_ok() {
-                        used[i] = true;
-                        continue 'outer;
+            // (bipartite matching by augmenting paths: an absent option is compatible with anything sent)
+            let ok: Vec<Vec<usize>> = ys.iter().map(|y| (0..xs.len()).filter(|&i| coerced(env, &xs[i], y, inner, unordered).is_ok()).collect()).collect();
+            fn augment(j: usize, ok: &[Vec<usize>], owner: &mut [Option<usize>], seen: &mut [bool]) -> bool {
+                for &i in &ok[j] {
+                    if seen[i] {
+                        continue;
+                    }
+                    seen[i] = true;
+                    if owner[i].is_none() || augment(owner[i].unwrap(), ok, owner, seen) {
+                        owner[i] = Some(j);
+                        return true;
                     }
                 }
-                return Err(format!("element {} was never sent; sent {}", y.brief(), s.brief()));
+                false
+            }
+            let mut owner: Vec<Option<usize>> = vec![None; xs.len()];
+            for j in 0..ys.len() {
+                let mut seen = vec![false; xs.len()];
+                if !augment(j, &ok, &mut owner, &mut seen) {
+                    return Err(format!("element {} cannot be matched with a sent element of its own; sent {}", ys[j].brief(), s.brief()));
+                }
             }
             Ok(())
         }
